@@ -27,11 +27,14 @@ pub struct TrackEv {
 pub struct Tracker {
     pub events: Mutex<Vec<TrackEv>>,
     pub next_clone_id: AtomicU32,
+    /// id of the one value of this run whose destructor panics (0: none); fires once, never on a
+    /// thread that is already unwinding
+    pub bomb: AtomicU32,
 }
 
 impl Tracker {
     pub fn new() -> Arc<Self> {
-        Arc::new(Self { events: Mutex::new(vec![]), next_clone_id: AtomicU32::new(1_000_000) })
+        Arc::new(Self { events: Mutex::new(vec![]), next_clone_id: AtomicU32::new(1_000_000), bomb: AtomicU32::new(0) })
     }
     pub fn record(&self, id: u32, kind: TrackKind) {
         let (step, thread) = crate::ctx::try_with_tl(|t| (t.run.tick(), t.tid as i16)).unwrap_or((u64::MAX, -1));
@@ -70,6 +73,9 @@ macro_rules! tracked_type {
         impl Drop for $name {
             fn drop(&mut self) {
                 self.tracker.record(self.id, TrackKind::Dropped);
+                if self.id != 0 && !std::thread::panicking() && crate::ctx::try_with_tl(|_| ()).is_some() && self.tracker.bomb.compare_exchange(self.id, 0, Ordering::SeqCst, Ordering::SeqCst).is_ok() {
+                    panic!("the destructor of lent value {} panics", self.id);
+                }
             }
         }
     };
